@@ -11,7 +11,7 @@ from harness import c06, c18
 FUNCTIONS = ['bycycle.utils.dataframes.epoch_df', 'bycycle.group.features.compute_features_2d',
              'bycycle.burst.cycle.detect_bursts_cycles', 'bycycle.burst.amp.detect_bursts_amp']
 BOUNDS = {'quick': '1..3 epochs, 0..3 cycles, both centrings, every epoch_len >= 1 and every placement (cycle boundaries on epoch boundaries and empty epochs included); options None / dict / per-epoch list, both burst methods',
-          'thorough': '1..3 epochs, 0..5 cycles'}
+          'thorough': 'epoch_df: 1..5 epochs, 0..6 cycles; compute_features_2d: 1..5 epochs of 4 samples and 1..3 epochs of 7 samples, up to 6 resp. 4 cycles'}
 OUTSIDE = 'more epochs / cycles; return_samples=False with axis=None (not part of the statement)'
 STUBS = ['compute_features -> arbitrary C01-conforming table (recorder)']
 ASSUMPTIONS = ['C01 invariant for the flattened table; closing side extrema lie inside the flattened signal',
@@ -21,21 +21,25 @@ ASSUMPTIONS = ['C01 invariant for the flattened table; closing side extrema lie 
 def configs(tier):
     q = tier == 'quick'
     out = []
-    for ne in (1, 2, 3):
-        for rows in range(0, (3 if q else 5) + 1):
+    for ne in ((1, 2, 3) if q else (1, 2, 3, 4, 5)):
+        for rows in range(0, (3 if q else 6) + 1):
             for centre in ('peak', 'trough'):
                 if centre == 'trough' and rows not in (2, 3):
                     continue
                 out.append({'fn': 'epoch_df', 'epochs': ne, 'rows': rows, 'centre': centre})
-                for kw in ('none', 'dict', 'list'):
-                    for method in ('cycles', 'amp'):
-                        if rows == 0 or (method == 'amp' and (centre == 'trough' or kw == 'none')):
-                            continue
-                        if kw == 'none' and centre != 'peak':
-                            continue
-                        if 2 * rows + 1 > 4 * ne:
-                            continue
-                        out.append({'fn': '2d', 'epochs': ne, 'rows': rows, 'centre': centre, 'kw': kw, 'method': method})
+                for el in ((4,) if q else (4, 7)):
+                    for kw in ('none', 'dict', 'list'):
+                        for method in ('cycles', 'amp'):
+                            if rows == 0 or (method == 'amp' and (centre == 'trough' or kw == 'none')):
+                                continue
+                            if kw == 'none' and centre != 'peak':
+                                continue
+                            if 2 * rows + 1 > el * ne or (el != 4 and (ne > 3 or rows > 4)) or (ne > 3 and rows > 4):
+                                continue
+                            cfg = {'fn': '2d', 'epochs': ne, 'rows': rows, 'centre': centre, 'kw': kw, 'method': method}
+                            if el != 4:
+                                cfg['el'] = el
+                            out.append(cfg)
     # the same option object(s) used for a second analysis
     for kw in ('dict', 'list'):
         out.append({'fn': '2d', 'epochs': 2, 'rows': 3, 'centre': 'trough', 'kw': kw, 'method': 'cycles', 'repeat': True})
@@ -136,7 +140,7 @@ def run(ctx, cfg):
     gf = ctx.mod('bycycle.group.features')
     ff = ctx.mod('bycycle.features.features')
     method, kwk = cfg['method'], cfg['kw']
-    el = 4          # concrete array: 4 samples per epoch, cycle positions symbolic inside the flattened signal
+    el = cfg.get('el', 4)          # concrete array: el samples per epoch, cycle positions symbolic inside the flattened signal
     ctx.assume(elen == el)
     data, scols = flat_table(ctx, rows, centre, ne * el + 0 * elen, method)
     vals = [[ctx.real('x%d_%d' % (e, k)) for k in range(el)] for e in range(ne)]
